@@ -3,10 +3,21 @@
 //! - typed exit: lets an in-process harness observe `std::process::exit` calls of the runtime as an
 //!   unwinding payload instead of losing the process;
 //! - fuel: a deterministic bound on iterations of the run loop;
-//! - counters: run-loop iterations and executed instructions.
+//! - counters: run-loop iterations and executed instructions;
+//! - progress: a process-wide count of loop iterations that another thread can read.
 
 use std::cell::Cell;
 use std::io::Write as _;
+use std::sync::atomic::{AtomicU64, Ordering};
+
+/// Iterations of the run loop and of the debugger's own loop, summed over all threads.
+static PROGRESS: AtomicU64 = AtomicU64::new(0);
+
+/// Total number of `tick` and `inner_tick` calls so far, readable from any thread: lets a harness
+/// tell a session that is making progress from one that spins somewhere else.
+pub fn progress() -> u64 {
+    PROGRESS.load(Ordering::Relaxed)
+}
 
 thread_local! {
     static EXIT_ARMED: Cell<bool> = const { Cell::new(false) };
@@ -47,6 +58,7 @@ pub fn set_fuel(fuel: Option<u64>) {
 
 /// Called at the top of every iteration of the run loop.
 pub fn tick() {
+    PROGRESS.fetch_add(1, Ordering::Relaxed);
     let ticks = TICKS.with(|cell| {
         cell.set(cell.get() + 1);
         cell.get()
@@ -62,6 +74,7 @@ pub fn tick() {
 /// Called at the top of every iteration of the debugger's own loop (inside `next_action`).
 /// Shares the fuel with the run loop, so that a spin inside the debugger is also cut off.
 pub fn inner_tick() {
+    PROGRESS.fetch_add(1, Ordering::Relaxed);
     let inner = INNER.with(|cell| {
         cell.set(cell.get() + 1);
         cell.get()
